@@ -45,6 +45,21 @@ func (e *enc) nodeFn(method string, c *ssa.CallCommon, recvIsArg bool) (string, 
 func (e *enc) nodeCall(x *ssa.Call, callee *ssa.Function, args []Term) {
 	c := x.Common()
 	name := callee.Name()
+	// tree walks call back into the repository: ast.Inspect its closure, the ANTLR walker the listener's Enter/Exit methods
+	if callee.Pkg != nil && callee.Pkg.Pkg.Path() == "go/ast" && (name == "Inspect" || name == "Walk") {
+		for _, a := range c.Args {
+			v := a
+			if ct, ok := v.(*ssa.ChangeType); ok {
+				v = ct.X
+			}
+			if mc, ok := v.(*ssa.MakeClosure); ok {
+				e.havocClosureEffects(mc)
+			}
+		}
+	}
+	if name == "Walk" && callee.Signature.Recv() != nil && strings.Contains(callee.Signature.Recv().Type().String(), "ParseTreeWalker") && len(c.Args) >= 2 {
+		e.havocListenerEffects(c.Args[1])
+	}
 	if callee.Signature.Recv() != nil {
 		recvT := nodeTypeName(callee.Signature.Recv().Type())
 		// receiver nil-ness: a method on a nil *XContext dereferences it (conservative: required non-nil)
@@ -193,4 +208,84 @@ func (e *enc) kindImplements(v Term, t types.Type) Term {
 // shapeCall: hook for grammar-shape contracts (shape.go); false = no contract known
 func (e *enc) shapeCall(x *ssa.Call, recvType, method string, args []Term) bool {
 	return e.w.shapeSet().call(e, x, recvType, method, args)
+}
+
+// havocListenerEffects: after ParseTreeWalker.Walk(listener, tree) everything the listener's methods can write is unknown;
+// the state invariants of the listener's package hold (every callback is verified to preserve them; that the walker calls
+// nothing but the listener's callbacks is the walker assumption).
+func (e *enc) havocListenerEffects(lv ssa.Value) {
+	for d := 0; d < 4; d++ {
+		switch x := lv.(type) {
+		case *ssa.MakeInterface:
+			lv = x.X
+			continue
+		case *ssa.ChangeInterface:
+			lv = x.X
+			continue
+		}
+		break
+	}
+	t := lv.Type()
+	if p, ok := t.(*types.Pointer); ok {
+		t = p.Elem()
+	}
+	n, ok := t.(*types.Named)
+	if !ok || n.Obj().Pkg() == nil || !strings.HasPrefix(n.Obj().Pkg().Path(), modPath) {
+		// the listener's type is not known here: all package state of the repository and all heaps may have changed
+		for _, k := range sortedKeys(e.mem) {
+			if strings.HasPrefix(k, "G:") || strings.HasPrefix(k, "H:") {
+				e.havocKey(k)
+			}
+		}
+		return
+	}
+	heap := false
+	for _, fn := range e.w.allRepoFuncs() {
+		r := fn.Signature.Recv()
+		if r == nil || fn.Blocks == nil {
+			continue
+		}
+		rt := r.Type()
+		if p, ok := rt.(*types.Pointer); ok {
+			rt = p.Elem()
+		}
+		if rn, ok := rt.(*types.Named); !ok || rn.Obj() != n.Obj() {
+			continue
+		}
+		if !strings.HasPrefix(fn.Name(), "Enter") && !strings.HasPrefix(fn.Name(), "Exit") && !strings.HasPrefix(fn.Name(), "Visit") {
+			continue
+		}
+		fa := e.w.frameOf(fn)
+		for g := range fa.writes {
+			e.havocKey(e.ensureGlobal(g))
+		}
+		if fa.fs {
+			e.havocKey(e.fsMem())
+		}
+		if fa.heap {
+			heap = true
+		}
+	}
+	if heap {
+		for _, k := range sortedKeys(e.mem) {
+			if strings.HasPrefix(k, "H:") {
+				e.havocKey(k)
+			}
+		}
+		if l, ok := e.fr.loc[lv]; ok {
+			e.havocLoc(l)
+		}
+	}
+	if e.ss != nil {
+		env := stateOnly(e.fnEnv(e.fr, e.mem))
+		if pk := e.pkgByPath(n.Obj().Pkg().Path()); pk != nil {
+			env.pkg = pk
+			for _, iv := range e.ss.Invariants[n.Obj().Pkg().Path()] {
+				if g, err := e.specBool(env, iv.E); err == nil {
+					e.assumeAt(g)
+				}
+			}
+		}
+	}
+	e.assumps["ParseTreeWalker.Walk calls nothing but the listener's Enter/Exit/Visit methods: afterwards what these can write is unknown and the listener's state invariants hold"] = true
 }
